@@ -22,7 +22,7 @@
 
    [src_step] / [src_reset] at the end dispatch on the class: one call of __next__ / reset() as the SOURCE defines it
    (children run by the engine); [src_step_is] / [src_reset_is] collect the tie lemmas. *)
-From Isobar Require Import Base.Prelude Pat.Val Pat.Syntax Pat.Step Generated.TablesStep.
+From Isobar Require Import Base.Prelude Pat.Val Pat.Syntax Pat.Step Pat.SrcLib Generated.TablesStep.
 From Coq Require Import String QArith.
 Open Scope Z_scope.
 
@@ -51,7 +51,7 @@ Ltac split_match :=
       end
   end.
 Ltac tie_step :=
-  cbv beta iota; cbn [negb orb andb is_none];
+  cbv beta iota zeta; cbn [negb orb andb is_none];
   first [ reflexivity
         | lazymatch goal with
           | |- ?L = ?R =>
@@ -433,26 +433,100 @@ Section Tie.
     construct f CSubsequence [pattern; offset; length] = src_PSubsequence_init (reset f) value f pattern offset length.
   Proof. reflexivity. Qed.
 
-  (** classes whose __next__ is outside the translated fragment: reset() and __init__ only *)
+  (** classes that call methods of their children or of themselves: x.reset() is [areset_strict], x.all() is [aall] with
+      the default maximum LENGTH_MAX, next(self) is [step] *)
+  Notation preset := (areset_strict binop LMAX).
+  Notation pall := (fun n a => aall binop LMAX n LMAX a).
+
+  Lemma PReset_next_src f pattern trigger :
+    step (S f) (PReset pattern trigger) = src_PReset_next Val.binop value anext f preset pattern trigger.
+  Proof.
+    open_ src_PReset_next. fold (Step.areset_strict binop LMAX). tie.
+  Qed.
   Lemma PReset_reset_src f pattern trigger : reset (S f) (PReset pattern trigger) = src_PReset_reset (reset f) value f pattern trigger.
   Proof. reflexivity. Qed.
   Lemma PReset_init_src f pattern trigger : construct f CReset [pattern; trigger] = src_PReset_init (reset f) value f pattern trigger.
   Proof. reflexivity. Qed.
-  Lemma PIndexOf_reset_src f l i : reset (S f) (PIndexOf l i) = src_PIndexOf_reset (reset f) value f l i.
+
+  Lemma PPingPong_next_src f pattern count values pos dir rpos :
+    step (S f) (PPingPong pattern count values pos dir rpos) =
+    src_PPingPong_next Val.binop value anext f pattern count values pos dir rpos.
+  Proof. open_ src_PPingPong_next. tie. Qed.
+  (* super().reset(); self.pattern.reset(); self.values = self.pattern.all(); ... *)
+  Lemma PPingPong_reset_src f pattern count values pos dir rpos :
+    reset (S f) (PPingPong pattern count values pos dir rpos) =
+    src_PPingPong_reset (reset f) value f preset pall pattern count values pos dir rpos.
   Proof. reflexivity. Qed.
-  Lemma PIndexOf_init_src f l i : construct f CIndexOf [l; i] = src_PIndexOf_init (reset f) value f l i.
+  Lemma PPingPong_init_src f pattern count :
+    construct (S f) CPingPong [pattern; AV count] = src_PPingPong_init (reset f) value f preset pall pattern count.
   Proof. reflexivity. Qed.
+
+  (* try: return next(self.inputs[self.pos]) except StopIteration: .. self.pos += 1; return next(self) *)
+  Lemma PConcatenate_next_src f inputs pos :
+    step (S f) (PConcatenate inputs pos) = src_PConcatenate_next Val.binop value anext f step inputs pos.
+  Proof. open_ src_PConcatenate_next. rewrite ?zlen_update_nth. tie; rewrite ?zlen_update_nth in *; congruence. Qed.
   Lemma PConcatenate_reset_src f inputs pos : reset (S f) (PConcatenate inputs pos) = src_PConcatenate_reset (reset f) value f inputs pos.
   Proof. reflexivity. Qed.
   Lemma PConcatenate_init_src f inputs : construct f CConcatenate [inputs] = src_PConcatenate_init (reset f) value f inputs.
   Proof. reflexivity. Qed.
-  Lemma PArrayIndex_reset_src f l i e : reset (S f) (PArrayIndex l i e) = src_PArrayIndex_reset (reset f) value f l i e.
+
+  (* `list = Pattern.value(self.list)` then `item not in list` / `list.index(item)`: a list literal held by the attribute
+     is the list value (cvalue).  Step.v's clause does not special-case a DICT literal there (it declines at once), the
+     translation reads it as a value and declines at the `in`: the same outcome (Inexact) but after stepping `item` -
+     hence the hypothesis. *)
+  Lemma PIndexOf_next_src f l i :
+    (forall kv, l <> AD kv) ->
+    step (S f) (PIndexOf l i) = src_PIndexOf_next Val.binop value anext f l i.
+  Proof.
+    intro H. open_ src_PIndexOf_next. unfold cvalue, py_contains, py_list_index.
+    destruct l; try (exfalso; eapply H; reflexivity); tie.
+  Qed.
+  Lemma PIndexOf_reset_src f l i : reset (S f) (PIndexOf l i) = src_PIndexOf_reset (reset f) value f l i.
   Proof. reflexivity. Qed.
-  Lemma PArrayIndex_init_src f l i : construct f CArrayIndex [l; i] = src_PArrayIndex_init (reset f) value f l i.
+  Lemma PIndexOf_init_src f l i : construct f CIndexOf [l; i] = src_PIndexOf_init (reset f) value f l i.
   Proof. reflexivity. Qed.
+
+  (* `vdict = Pattern.value(self.dict)`, `return vdict[vkey]`: likewise with a dict literal; hypothesis: not a LIST literal *)
+  Lemma PDictKey_next_src f d k :
+    (forall l, d <> AL l) ->
+    step (S f) (PDictKey d k) = src_PDictKey_next Val.binop value anext f d k.
+  Proof.
+    intro H. open_ src_PDictKey_next. unfold cvalue, py_getitem.
+    destruct d; try (exfalso; eapply H; reflexivity); tie.
+  Qed.
   Lemma PDictKey_reset_src f d k : reset (S f) (PDictKey d k) = src_PDictKey_reset (reset f) value f d k.
   Proof. reflexivity. Qed.
   Lemma PDictKey_init_src f d k : construct f CDictKey [d; k] = src_PDictKey_init (reset f) value f d k.
+  Proof. reflexivity. Qed.
+
+  (** PArrayIndex: `if self.exhausted: raise StopIteration`, then inside try / except StopIteration (which sets the flag and
+      re-raises): `list = Pattern.value(self.list)` is a list literal whose selected item is stepped in place, or whatever
+      value Pattern.value gives, subscripted as a value; `index = int(index)` *)
+  Lemma py_int_int v x : py_int v = Yield x -> exists i, x = VInt i.
+  Proof. destruct v; cbn; intro H; try discriminate; injection H as <-; eauto. Qed.
+  Lemma PArrayIndex_next_src f l i e :
+    step (S f) (PArrayIndex l i e) = src_PArrayIndex_next Val.binop value anext f l i e.
+  Proof.
+    open_ src_PArrayIndex_next. unfold py_seq_item, is_stop.
+    destruct e; [reflexivity|].
+    destruct l; tie;
+      try (match goal with H : py_int _ = Yield _ |- _ => destruct (py_int_int _ _ H) as [? ->] end; cbn [int_of] in *; tie; try congruence).
+    all: try (cbn [py_int int_of] in *; congruence).
+  Qed.
+
+  (** PDict: `vdict = Pattern.value(self.dict)` is the dict held by the attribute; dict([(k, Pattern.value(vdict[k])) for k in vdict]) *)
+  Lemma PDict_next_src f d : step (S f) (PDict d) = src_PDict_next Val.binop value anext f d.
+  Proof. open_ src_PDict_next. tie. Qed.
+
+  (** PMap (PRound and the other subclasses inherit this __next__; the stored function is applied by Step.apply_fn) *)
+  Lemma PMap_next_src f input operator args kwargs :
+    step (S f) (PMap input operator args kwargs) = src_PMap_next Val.binop value anext f input operator args kwargs.
+  Proof. open_ src_PMap_next. tie. Qed.
+
+  (** reset() and __init__ of PArrayIndex, reset() of PDict *)
+  Lemma PArrayIndex_reset_src f l i e : reset (S f) (PArrayIndex l i e) = src_PArrayIndex_reset (reset f) value f l i e.
+  Proof. reflexivity. Qed.
+  Lemma PArrayIndex_init_src f l i : construct f CArrayIndex [l; i] = src_PArrayIndex_init (reset f) value f l i.
   Proof. reflexivity. Qed.
   Lemma PDict_reset_src f d : reset (S f) (PDict d) = src_PDict_reset (reset f) value f d.
   Proof. reflexivity. Qed.
@@ -508,6 +582,12 @@ Section Tie.
         | PDiff source current => src_PDiff_next Val.binop value anext f source current
         | PSkipIf pattern skip => src_PSkipIf_next Val.binop value anext f pattern skip
         | PWrap pattern mn mx => src_PWrap_next Val.binop value anext f f pattern mn mx
+        | PReset pattern trigger => src_PReset_next Val.binop value anext f (areset_strict binop LMAX) pattern trigger
+        | PPingPong pattern count values pos dir rpos => src_PPingPong_next Val.binop value anext f pattern count values pos dir rpos
+        | PConcatenate inputs pos => src_PConcatenate_next Val.binop value anext f step inputs pos
+        | PArrayIndex l i e => src_PArrayIndex_next Val.binop value anext f l i e
+        | PDict d => src_PDict_next Val.binop value anext f d
+        | PMap input operator args kwargs => src_PMap_next Val.binop value anext f input operator args kwargs
         | _ => step fuel p
         end
     end.
@@ -540,6 +620,12 @@ Section Tie.
       | src_PSkipIf_next => apply PSkipIf_next_src
       | src_PWrap_next => apply PWrap_next_src
       | src_PSequence_next => apply PSequence_next_src
+      | src_PReset_next => apply PReset_next_src
+      | src_PPingPong_next => apply PPingPong_next_src
+      | src_PConcatenate_next => apply PConcatenate_next_src
+      | src_PArrayIndex_next => apply PArrayIndex_next_src
+      | src_PDict_next => apply PDict_next_src
+      | src_PMap_next => apply PMap_next_src
       | src_PAdd_next => apply PAdd_next_src
       | src_PSub_next => apply PSub_next_src
       | src_PMul_next => apply PMul_next_src
@@ -609,6 +695,8 @@ Section Tie.
         | PSkipIf pattern skip => src_PSkipIf_reset (reset f) value f pattern skip
         | PWrap pattern mn mx => src_PWrap_reset (reset f) value f pattern mn mx
         | PReset pattern trigger => src_PReset_reset (reset f) value f pattern trigger
+        | PPingPong pattern count values pos dir rpos =>
+            src_PPingPong_reset (reset f) value f (areset_strict binop LMAX) (fun n a => aall binop LMAX n LMAX a) pattern count values pos dir rpos
         | PIndexOf l i => src_PIndexOf_reset (reset f) value f l i
         | PConcatenate inputs pos => src_PConcatenate_reset (reset f) value f inputs pos
         | PArrayIndex l i e => src_PArrayIndex_reset (reset f) value f l i e
